@@ -1,6 +1,6 @@
 """Generator of wordlist dictionaries (shared by C06, C12, C13, C16, C17, C18, C19)."""
 
-LANGS = ['German', 'english', 'Dutch', 'Íslenska', 'Český', 'abc', 'Zulu', 'mandarin', 'Ελληνικά', 'quechua']
+LANGS = ['German', 'english', 'Dutch', 'Íslenska', 'Český', 'abc', 'Zulu', 'mandarin', 'Ελληνικά', 'quechua', 'Old_High_German', 'Proto-Germanic']
 CONCEPTS = ['hand', 'Stone', 'water', 'ÁRBOL', 'to go', 'eye', 'Zahn', 'fire', 'leaf/leaves', 'one']
 SYLL_C = ['p', 't', 'k', 'b', 'd', 'g', 'm', 'n', 's', 'ʃ', 'x', 'h', 'l', 'r', 'j', 'w', 'f', 'v', 'ts', 'tʃ', 'pʰ', 'ŋ']
 SYLL_V = ['a', 'e', 'i', 'o', 'u', 'ə', 'ɛ', 'ɔ', 'aː', 'ai', 'y']
@@ -35,6 +35,10 @@ def gen_wordlist(rng, with_tokens=False, with_cogid=True, max_langs=5, max_conce
     d = {0: header}
     idx = rng.choice([1, 1, 5, 100])
     pool = [gen_word(rng) for _ in range(rng.randrange(2, 8))]
+    if rng.random() < 0.5:
+        # related shapes of one word: reduplicated, a doubled segment, cut short (mama / ma, kaa / ka)
+        b = rng.choice(pool)
+        pool += [b + b, b + b[-1], b[:max(1, len(b) // 2)]]
     cog = 0
     for c in concepts:
         cogs = {}
@@ -46,7 +50,12 @@ def gen_wordlist(rng, with_tokens=False, with_cogid=True, max_langs=5, max_conce
                 row = [l, c, w]
                 if with_tokens:
                     from lingpy.sequence.sound_classes import ipa2tokens
-                    row.append(ipa2tokens(w))
+                    toks = ipa2tokens(w)
+                    if len(toks) >= 2 and rng.random() < 0.12:
+                        # a segment in source/target notation (what is written / what is analysed): a legal segment
+                        k = rng.randrange(len(toks))
+                        toks[k] = rng.choice(['h₂', '?', 'X']) + '/' + toks[k]
+                    row.append(toks)
                 if with_cogid:
                     if cogs and rng.random() < 0.5:
                         cid = rng.choice(list(cogs.values()))
